@@ -92,14 +92,20 @@ class Check(PropertyCheck):
                 lines += ["q current_time", "q completed"]
             tr.reset()
             first = True
+            quiet = rng.random() < 0.35      # nobody asks anything until the episode is over (or until some random moment)
+            ask_from = rng.randint(1, gen.num_ops(jobs)) if quiet else 0
+            k = 0
             while not tr.done():
                 j, p, m = gen.gen_valid_request(rng, tr, rng.choice(["uniform", "last_job_first"]))
                 tr.take(j)
+                k += 1
                 lines.append(f"disp {j} {p} {m}")
+                if quiet and k < ask_from:
+                    continue
                 if not first or rng.random() < 0.5:
                     lines += ["q current_time", "q completed"]
                 first = False
-            lines += ["q is_complete", "q makespan"]
+            lines += ["q current_time", "q completed", "q is_complete", "q makespan"]
         meta = {"family": family, "filter": "none" if f is None else "+".join(f) or "empty-composite",
                 "flexible": gen.is_flexible(jobs), "zero_dur": gen.has_zero(jobs), "accepted": n_acc,
                 "filter_style": rng.choice(["callable", "enum", "str", "lazy"])}
